@@ -117,6 +117,10 @@ fn dfs<const M: usize>(cx: &mut Cx, g: &GlobalDescriptorTable<M>, reference: &Ve
                     if sel.0 != exp_sel {
                         cx.r.viol(&format!("C14|MAX={}|selector-wrong", M), &hs, &format!("{:#x} expected {:#x}", sel.0, exp_sel));
                     }
+                    // the selector as seen through its own accessors
+                    if catch(|| (sel.index() as usize, sel.rpl() as u16)) != Ok((reference.len(), ((low >> 45) & 3) as u16)) {
+                        cx.r.viol(&format!("C14|MAX={}|selector-index-or-rpl-accessor-disagrees-with-the-slot", M), &hs, &format!("index() {:?}", catch(|| sel.index())));
+                    }
                     cx.r.bucket(if need == 1 { "append-user-ok" } else { "append-system-ok" });
                     check_state(cx, &g2, &ref2, &hs);
                     cx.r.states += 1;
@@ -176,6 +180,10 @@ fn fill_big(r: &mut Rep, pattern: &str) {
                 let low = match d { Descriptor::UserSegment(v) => v, Descriptor::SystemSegment(v, _) => v };
                 if sel.0 != ((reference.len() as u16) << 3) | ((low >> 45) & 3) as u16 {
                     r.viol("C14|MAX=8192|selector-wrong", &format!("gdtfill {} at {}", pattern, i), &format!("{:#x}", sel.0));
+                    break;
+                }
+                if catch(|| (sel.index() as usize, sel.rpl() as u16)) != Ok((reference.len(), ((low >> 45) & 3) as u16)) {
+                    r.viol("C14|MAX=8192|selector-index-or-rpl-accessor-disagrees-with-the-slot", &format!("gdtfill {} at {}", pattern, i), &format!("index() {:?} for slot {}", catch(|| sel.index()), reference.len()));
                     break;
                 }
                 match d {
